@@ -419,6 +419,7 @@ class Verdict:
         if self.inconclusive:
             print("%s: INCONCLUSIVE: %s" % (self.pid, "; ".join(self.inconclusive)))
             return 2
+        shutil.rmtree(self._replay_dir, ignore_errors=True)
         print("%s: held on %d evaluations (%d distinct non-trivial), %.1fs" %
               (self.pid, self.cov["evaluations"], self.cov["distinct_nontrivial"], time.time() - self.t0))
         return 0
